@@ -65,21 +65,19 @@ Proof. exact SpellingProofs.compound_findall_independent. Qed.
 Print Assumptions C17_findall_independent.
 
 (* the string form produced by an environment recompiles in that environment to an equivalent
-   query with the same string form (C10 for every admissible assignment; the float conditions as
-   in C10_compiled_in_domain_partial) *)
+   query with the same string form (C10 for every admissible assignment) *)
 Theorem C17_string_form :
   forall (E : env) re_ok (text : ustr) (q : query) (t : ustr),
     tokens_ok E = true -> e_well_typed E = true -> e_unicode_escape E = true ->
     in_range (e_min_index E) (e_max_index E) 1%Z = true ->
     compile E re_ok text = Ok q ->
-    floats_ok q = true -> floats_stable q = true ->
     query_text E q = Ok t ->
     exists q',
       compile E re_ok t = Ok q' /\
       (forall rf rs d ctx, compound_finditer E rf rs q' d ctx = compound_finditer E rf rs q d ctx) /\
       query_text E q' = Ok t /\
       c10_domain E re_ok q' = true.
-Proof. exact RoundTrip.string_form_env. Qed.
+Proof. exact RoundTrip.string_form_env_total. Qed.
 Print Assumptions C17_string_form.
 
 (* the default spellings are admissible *)
